@@ -7,6 +7,7 @@
   C01 and the copy theorem of C08 need exactly this of the archive they talk about.
 -/
 import Wsp.Props.C08Dest
+import Wsp.Props.C02
 namespace Wsp.Inv
 open Wsp.Handle Wsp.C14 Wsp.Total Wsp.C01 Wsp.C08
 
@@ -78,5 +79,456 @@ theorem write_allstate (h h' : Handle) (g : Good h) (al : AllState h) (k : Nat) 
       · left; omega
       · right; omega
     exact (al k' b hb').of_sameOn s
+
+/-! ### propagation keeps the invariant -/
+
+/-- `L` bounds every step from above and every step divides it (true of the coarsest step) -/
+def Coarse (h : Handle) (L : Nat) : Prop :=
+  ∀ a ∈ h.archs, a.step ∣ (L : Int) ∧ a.step ≤ (L : Int) ∧ 0 < a.step
+
+/-- a time that may be written at the level of archive `a`: on its grid and not before `L` -/
+def LevelTime (a : Arch) (L t : Nat) : Prop := GridTime a t ∧ L ≤ t
+
+theorem ifw_level (a : Arch) (L t : Nat) (hs : 0 < a.step) (hd : a.step ∣ (L : Int)) (hle : a.step ≤ (L : Int))
+    (ht : t < 2147483648) (hL : L ≤ t) : LevelTime a L (a.intervalForWrite t) := by
+  have hid := intervalForWrite_ideal a t hs (by omega)
+  have hal := alignDown_le t a.step hs
+  have hmono := alignDown_mono (L : Int) (t : Int) a.step hs (by omega)
+  have hL0 : (L : Int) % a.step = 0 := Int.emod_eq_zero_of_dvd hd
+  unfold alignDown at hid hal
+  refine ⟨⟨by omega, by rw [hid]; exact alignDown_dvd t a.step, ?_⟩, by omega⟩
+  intro h0
+  rw [h0] at hid
+  omega
+
+theorem Coarse.of_hdr {h h' : Handle} {L : Nat} (c : Coarse h L) (hh : h'.hdr = h.hdr) : Coarse h' L := by
+  intro a ha
+  unfold Handle.archs at ha
+  rw [hh] at ha
+  exact c a ha
+
+theorem propagateOne_allstate (o : FOps) (h h' : Handle) (g : Good h) (al : AllState h) (k : Nat) (a aHigh : Arch)
+    (ha : h.archs[k]? = some a) (t : Nat) (gt : GridTime a t) (stored : Bool)
+    (hp : propagateOne o h a aHigh t = .ok (h', stored)) : AllState h' ∧ Good h' ∧ h'.hdr = h.hdr := by
+  obtain ⟨pts, _, h1, h2⟩ := Wsp.C02.propagateOne_spec o h h' a aHigh t stored hp
+  cases stored with
+  | false => obtain ⟨e, _⟩ := h1 rfl; subst e; exact ⟨al, g, rfl⟩
+  | true =>
+    obtain ⟨_, _, v, off, _, hg, hput⟩ := h2 rfl
+    exact write_allstate h h' g al k a ha t v gt off hg hput
+
+/-- the accumulator step of ⟦propagate⟧ -/
+def nextAcc (aLow : Option Arch) (acc : List Nat) (t : Nat) (stored : Bool) : List Nat :=
+  if stored then
+    match aLow with
+    | none => acc
+    | some l =>
+      let tLow := l.intervalForWrite t
+      match acc with
+      | last :: _ => if last = tLow then acc else tLow :: acc
+      | [] => [tLow]
+  else acc
+
+theorem propagateLoop_cons (o : FOps) (h : Handle) (a aHigh : Arch) (aLow : Option Arch) (acc : List Nat) (t : Nat) (ts : List Nat) :
+    propagateLoop o h a aHigh aLow acc (t :: ts) =
+      match propagateOne o h a aHigh t with
+      | .error e => .error e
+      | .ok (h, stored) => propagateLoop o h a aHigh aLow (nextAcc aLow acc t stored) ts := rfl
+
+theorem nextAcc_level (aLow : Option Arch) (acc : List Nat) (t : Nat) (stored : Bool) (L : Nat)
+    (hlow : ∀ l, aLow = some l → 0 < l.step ∧ l.step ∣ (L : Int) ∧ l.step ≤ (L : Int))
+    (ht : t < 2147483648 ∧ L ≤ t)
+    (hacc : ∀ x ∈ acc, ∀ l, aLow = some l → LevelTime l L x) :
+    ∀ x ∈ nextAcc aLow acc t stored, ∀ l, aLow = some l → LevelTime l L x := by
+  intro x hx l hl
+  unfold nextAcc at hx
+  cases stored with
+  | false => exact hacc x (by simpa using hx) l hl
+  | true =>
+    simp only [if_true] at hx
+    subst hl
+    simp only at hx
+    obtain ⟨hl0, hl1, hl2⟩ := hlow l rfl
+    have hnew : LevelTime l L (l.intervalForWrite t) := ifw_level l L t hl0 hl1 hl2 ht.1 ht.2
+    cases acc with
+    | nil => simp at hx; subst hx; exact hnew
+    | cons last rest =>
+      simp only at hx
+      split at hx
+      · exact hacc x hx l rfl
+      · simp only [List.mem_cons] at hx
+        rcases hx with rfl | hx
+        · exact hnew
+        · exact hacc x (by simpa using hx) l rfl
+
+theorem propagateLoop_allstate (o : FOps) (k : Nat) (a aHigh : Arch) (aLow : Option Arch) (L : Nat) (ts : List Nat) :
+    ∀ (h h' : Handle) (acc out : List Nat), Good h → AllState h → h.archs[k]? = some a →
+      (∀ t ∈ ts, LevelTime a L t) →
+      (∀ l, aLow = some l → 0 < l.step ∧ l.step ∣ (L : Int) ∧ l.step ≤ (L : Int)) →
+      (∀ x ∈ acc, ∀ l, aLow = some l → LevelTime l L x) →
+      propagateLoop o h a aHigh aLow acc ts = .ok (h', out) →
+      AllState h' ∧ Good h' ∧ h'.hdr = h.hdr ∧ (∀ x ∈ out, ∀ l, aLow = some l → LevelTime l L x) := by
+  induction ts with
+  | nil =>
+    intro h h' acc out g al _ _ _ hacc hp
+    simp only [propagateLoop] at hp
+    injection hp with hp; injection hp with e1 e2; subst e1 e2
+    exact ⟨al, g, rfl, fun x hx => hacc x (by simpa using hx)⟩
+  | cons t ts ih =>
+    intro h h' acc out g al ha hts hlow hacc hp
+    rw [propagateLoop_cons] at hp
+    cases h1 : propagateOne o h a aHigh t with
+    | error e => rw [h1] at hp; simp at hp
+    | ok r =>
+      obtain ⟨hm, stored⟩ := r
+      rw [h1] at hp; simp only at hp
+      have htt := hts t (by simp)
+      obtain ⟨alm, gm, hh⟩ := propagateOne_allstate o h hm g al k a aHigh ha t htt.1 stored h1
+      have ham : hm.archs[k]? = some a := by unfold Handle.archs at ha ⊢; rw [hh]; exact ha
+      have hacc' := nextAcc_level aLow acc t stored L hlow ⟨htt.1.1, htt.2⟩ hacc
+      obtain ⟨al', g', hh', hout⟩ := ih hm h' _ out gm alm ham (fun x hx => hts x (by simp [hx])) hlow hacc' hp
+      exact ⟨al', g', hh'.trans hh, hout⟩
+
+theorem propagate_allstate (o : FOps) (h h' : Handle) (g : Good h) (al : AllState h) (L : Nat) (c : Coarse h L)
+    (k : Nat) (ts out : List Nat)
+    (hts : ∀ a, h.archs[k]? = some a → ∀ t ∈ ts, LevelTime a L t)
+    (hp : propagate o h k ts = .ok (h', out)) :
+    AllState h' ∧ Good h' ∧ h'.hdr = h.hdr ∧ (∀ l, h.archs[k + 1]? = some l → ∀ x ∈ out, LevelTime l L x) := by
+  unfold propagate at hp
+  split at hp
+  · injection hp with hp; injection hp with e1 e2; subst e1 e2
+    exact ⟨al, g, rfl, fun _ _ x hx => by simp at hx⟩
+  · split at hp
+    · rename_i a aHigh ha _
+      split at hp
+      · simp at hp
+      · obtain ⟨al', g', hh, hout⟩ := propagateLoop_allstate o k a aHigh h.archs[k + 1]? L ts h h' [] out g al ha
+          (hts a ha)
+          (fun l hl => by
+            have := c l (mem_of_getElem? hl)
+            exact ⟨this.2.2, this.1, this.2.1⟩)
+          (by intro x hx; simp at hx) hp
+        exact ⟨al', g', hh, fun l hl x hx => hout x hx l hl⟩
+    · simp at hp
+
+theorem propagateChainLoop_allstate (o : FOps) (L : Nat) (fuel : Nat) :
+    ∀ (h h' : Handle) (low : Nat) (ts : List Nat), Good h → AllState h → Coarse h L →
+      (∀ a, h.archs[low]? = some a → ∀ t ∈ ts, LevelTime a L t) →
+      propagateChainLoop o fuel h low ts = .ok h' → AllState h' ∧ Good h' ∧ h'.hdr = h.hdr := by
+  induction fuel with
+  | zero =>
+    intro h h' low ts g al _ _ hp
+    simp only [propagateChainLoop] at hp
+    injection hp with hp; subst hp; exact ⟨al, g, rfl⟩
+  | succ fuel ih =>
+    intro h h' low ts g al c hts hp
+    simp only [propagateChainLoop] at hp
+    split at hp
+    · cases h1 : propagate o h low ts with
+      | error e => simp [h1] at hp
+      | ok r =>
+        obtain ⟨hm, ts'⟩ := r
+        simp only [h1] at hp
+        obtain ⟨alm, gm, hh, hout⟩ := propagate_allstate o h hm g al L c low ts ts' hts h1
+        have := ih hm h' (low + 1) ts' gm alm (c.of_hdr hh) (by
+          intro a ha t ht
+          have ha' : h.archs[low + 1]? = some a := by unfold Handle.archs at ha ⊢; rw [hh] at ha; exact ha
+          exact hout a ha' t ht) hp
+        exact ⟨this.1, this.2.1, this.2.2.trans hh⟩
+    · injection hp with hp; subst hp; exact ⟨al, g, rfl⟩
+
+theorem timesToPropagate_level (l : Arch) (L : Nat) (hs : 0 < l.step) (hd : l.step ∣ (L : Int)) (hle : l.step ≤ (L : Int)) :
+    ∀ (ts acc : List Nat), (∀ t ∈ ts, t < 2147483648 ∧ L ≤ t) → (∀ x ∈ acc, LevelTime l L x) →
+      ∀ x ∈ timesToPropagate l acc ts, LevelTime l L x := by
+  intro ts
+  induction ts with
+  | nil => intro acc _ hacc x hx; simp only [timesToPropagate] at hx; exact hacc x (by simpa using hx)
+  | cons t ts ih =>
+    intro acc hts hacc x hx
+    have ht := hts t (by simp)
+    have hnew : LevelTime l L (l.intervalForWrite t) := ifw_level l L t hs hd hle ht.1 ht.2
+    simp only [timesToPropagate] at hx
+    cases acc with
+    | nil =>
+      simp only at hx
+      exact ih _ (fun y hy => hts y (by simp [hy])) (by intro y hy; simp at hy; subst hy; exact hnew) x hx
+    | cons last rest =>
+      simp only at hx
+      split at hx
+      · exact ih _ (fun y hy => hts y (by simp [hy])) hacc x hx
+      · refine ih _ (fun y hy => hts y (by simp [hy])) ?_ x hx
+        intro y hy
+        simp only [List.mem_cons] at hy
+        rcases hy with rfl | hy
+        · exact hnew
+        · exact hacc y (by simpa using hy)
+
+theorem propagateChain_allstate (o : FOps) (h h' : Handle) (g : Good h) (al : AllState h) (L : Nat) (c : Coarse h L)
+    (k : Nat) (aligned : List Point) (hal : ∀ p ∈ aligned, p.t < 2147483648 ∧ L ≤ p.t)
+    (hp : propagateChain o h k aligned = .ok h') : AllState h' ∧ Good h' ∧ h'.hdr = h.hdr := by
+  unfold propagateChain at hp
+  dsimp only at hp
+  split at hp
+  · injection hp with hp; subst hp; exact ⟨al, g, rfl⟩
+  · rename_i aLow hlow
+    have cl := c aLow (mem_of_getElem? hlow)
+    apply propagateChainLoop_allstate o L _ h h' (k + 1) _ g al c ?_ hp
+    intro a ha t ht
+    rw [hlow] at ha; injection ha with ha; subst ha
+    exact timesToPropagate_level aLow L cl.2.2 cl.1 cl.2.1 _ [] (by
+      intro t' ht'
+      simp only [List.mem_map] at ht'
+      obtain ⟨p, hp', rfl⟩ := ht'
+      exact hal p hp') (by intro x hx; simp at hx) t ht
+
+/-! ### direct writes and whole updates keep the invariant -/
+
+/-- ⟦archiveUpdateMany⟧ split into its direct writes and its propagation -/
+theorem archiveUpdateMany_split (o : FOps) (h h' : Handle) (g : Good h) (k : Nat) (a : Arch) (ha : h.archs[k]? = some a)
+    (st : ArchState h a) (ps : List Point) (hps : ∀ p ∈ ps, TimeOK a p.t)
+    (hp : archiveUpdateMany o h ps k = .ok h') :
+    ∃ base hm, putPoints h a base (alignPoints a ps) = .ok hm ∧
+      propagateChain o hm k (alignPoints a ps) = .ok h' ∧
+      Reach a h ((alignPoints a ps).map fun p => some (p.t, p.v)) hm := by
+  have hs0 : 0 < a.step := by rcases st with fr | ⟨lv, _⟩; exact fr.hs; exact lv.hs
+  have hal : ∀ d ∈ alignPoints a ps, d.t < 2147483648 ∧ a.step ∣ (d.t : Int) ∧ d.t ≠ 0 := by
+    intro d hd
+    obtain ⟨q, hq, e⟩ := alignPoints_times a (TimeOK a) ps hps d hd
+    rw [e]; exact aligned_ok a hs0 q hq
+  have hview : a.offset + 12 ≤ h.view.length := by
+    rcases st with fr | ⟨lv, _⟩
+    · have := fr.view; have := fr.hn; omega
+    · have := lv.view; have := lv.hn; omega
+  have hbI := baseInterval_slot h a hview
+  unfold archiveUpdateMany at hp
+  rw [ha] at hp
+  simp only [hbI] at hp
+  rcases st with fr | ⟨lv, albase⟩
+  · have hb0 : (slotAt h a 0).t = 0 := fr.zero 0 fr.hn
+    simp only [hb0, if_true] at hp
+    cases hA : alignPoints a ps with
+    | nil => rw [hA] at hp; simp at hp
+    | cons d rest =>
+      rw [hA] at hp
+      simp only [List.head?_cons, Option.map_some] at hp
+      cases hput : putPoints h a d.t (d :: rest) with
+      | error e => rw [hput] at hp; simp at hp
+      | ok hm =>
+        rw [hput] at hp; simp only at hp
+        have hd := hal d (by rw [hA]; simp)
+        have r := putPoints_reach_fresh a d rest h hm fr ⟨hd.1, hd.2.2⟩ (by
+          intro q hq
+          have hq' := hal q (by rw [hA]; simp [hq])
+          exact ⟨⟨hq'.1, Int.dvd_sub hq'.2.1 hd.2.1⟩, hq'.2.2⟩) hput
+        exact ⟨d.t, hm, hput, hp, r⟩
+  · have hb0 : ¬ (slotAt h a 0).t = 0 := lv.b0
+    simp only [hb0, if_false] at hp
+    cases hput : putPoints h a (slotAt h a 0).t (alignPoints a ps) with
+    | error e => rw [hput] at hp; simp at hp
+    | ok hm =>
+      rw [hput] at hp; simp only at hp
+      have r := putPoints_reach_live a (slotAt h a 0).t lv.blt (alignPoints a ps) h hm lv ⟨0, by omega⟩ (by
+        intro q hq
+        have hq' := hal q hq
+        exact ⟨⟨hq'.1, Int.dvd_sub hq'.2.1 albase⟩, hq'.2.2⟩) hput
+      exact ⟨_, hm, hput, hp, r⟩
+
+/-- the batch write loop stays inside its archive: every other archive is left alone -/
+theorem putPoints_others (h : Handle) (g : Good h) (k : Nat) (a : Arch) (ha : h.archs[k]? = some a) (base : Nat)
+    (k' : Nat) (b : Arch) (hb : h.archs[k']? = some b) (hk : k' ≠ k) (pts : List Point)
+    (hpt : ∀ p ∈ pts, p.t < 4294967296) :
+    ∀ (h1 hm : Handle), h1.view.length = h.view.length → putPoints h1 a base pts = .ok hm →
+      SameOn b h1 hm := by
+  have pa := g.placed a (mem_of_getElem? ha)
+  have hfit : a.offset + 12 * a.n ≤ 4294967295 := by have := pa.hi; have := pa.fits; omega
+  have hdis := regions_disjoint h g k' k b a hk hb ha
+  induction pts with
+  | nil => intro h1 hm _ hp; simp only [putPoints] at hp; injection hp with hp; subst hp; exact SameOn.refl b h1
+  | cons p rest ih =>
+    intro h1 hm hlen hp
+    simp only [putPoints] at hp
+    cases hput : h1.putPointAt p (a.pointOffsetAt (a.pointIndex base p.t)) with
+    | error e => rw [hput] at hp; simp at hp
+    | ok h2 =>
+      rw [hput] at hp; simp only at hp
+      obtain ⟨r0, r1⟩ := pointIndex_range a pa.npos base p.t
+      rw [pointOffsetAt_ideal a _ r0 r1 hfit] at hput
+      obtain ⟨_, hold, _⟩ := putPointAt_slots h1 h2 p (hpt p (by simp)) a _ hput
+      have s1 : SameOn b h1 h2 := by
+        refine ⟨putPointAt_len h1 h2 _ _ hput, ?_⟩
+        intro j hj
+        apply hold b j
+        rcases hdis with hd | hd
+        · left; omega
+        · right; omega
+      have s2 := ih (fun q hq => hpt q (by simp [hq])) h2 hm (by rw [putPointAt_len h1 h2 _ _ hput]; exact hlen) hp
+      exact s1.trans s2
+
+theorem archiveUpdateMany_allstate (o : FOps) (h h' : Handle) (g : Good h) (al : AllState h) (L : Nat) (c : Coarse h L)
+    (k : Nat) (a : Arch) (ha : h.archs[k]? = some a) (ps : List Point)
+    (hps : ∀ p ∈ ps, p.t < 2147483648 ∧ L ≤ p.t)
+    (hp : archiveUpdateMany o h ps k = .ok h') : AllState h' ∧ Good h' ∧ h'.hdr = h.hdr := by
+  have ca := c a (mem_of_getElem? ha)
+  have htok : ∀ p ∈ ps, TimeOK a p.t := fun p hp' => ⟨(hps p hp').1, by have := (hps p hp').2; omega⟩
+  obtain ⟨base, hm, hput, hpc, r⟩ := archiveUpdateMany_split o h h' g k a ha (al k a ha) ps htok hp
+  have pa := g.placed a (mem_of_getElem? ha)
+  have f1 := putPoints_frame a pa base _ h hm hput
+  have gm := g.of_frame f1
+  -- aligned points: grid times of `a`, not before `L`
+  have hal : ∀ d ∈ alignPoints a ps, LevelTime a L d.t := by
+    intro d hd
+    obtain ⟨q, hq, e⟩ := alignPoints_times a (fun t => t < 2147483648 ∧ L ≤ t) ps hps d hd
+    rw [e]; exact ifw_level a L q ca.2.2 ca.1 ca.2.1 hq.1 hq.2
+  have alm : AllState hm := by
+    intro k' b hb
+    have hb' : h.archs[k']? = some b := by unfold Handle.archs at hb ⊢; rw [f1.1] at hb; exact hb
+    by_cases hk : k' = k
+    · subst hk
+      rw [ha] at hb'; injection hb' with hb'; subst hb'
+      exact reach_state a _ h hm (al k' a ha) (by
+        intro w hw
+        simp only [writesOf, List.filterMap_map, List.mem_filterMap, Function.comp, id] at hw
+        obtain ⟨d, hd, hdw⟩ := hw
+        injection hdw with hdw; subst hdw
+        exact (hal d hd).1) r
+    · exact (al k' b hb').of_sameOn (putPoints_others h g k a ha base k' b hb' hk _
+        (fun d hd => by have := (hal d hd).1.1; omega) h hm rfl hput)
+  obtain ⟨al', g', hh⟩ := propagateChain_allstate o hm h' gm alm L (c.of_hdr f1.1) k _
+    (fun d hd => ⟨(hal d hd).1.1, (hal d hd).2⟩) hpc
+  exact ⟨al', g', hh.trans f1.1⟩
+
+theorem updateManyLoop_allstate (o : FOps) (k : Int) (now : Nat) (L : Nat) (as : List Arch) :
+    ∀ (h h' : Handle) (ps : List Point) (i : Nat), Good h → AllState h → Coarse h L → h.archs.drop i = as →
+      (∀ p ∈ ps, p.t < 2147483648 ∧ L ≤ p.t) →
+      updateManyLoop o k now h ps i as = .ok h' → AllState h' ∧ Good h' ∧ h'.hdr = h.hdr := by
+  induction as with
+  | nil =>
+    intro h h' ps i g al _ _ _ hp
+    simp only [updateManyLoop] at hp
+    injection hp with hp; subst hp; exact ⟨al, g, rfl⟩
+  | cons a as ih =>
+    intro h h' ps i g al c hd hps hp
+    have hi : i < h.archs.length := by
+      have : (h.archs.drop i).length = (a :: as).length := by rw [hd]
+      simp at this; omega
+    have hd' : h.archs.drop (i + 1) = as := by
+      have : h.archs.drop (i + 1) = (h.archs.drop i).drop 1 := by rw [List.drop_drop]
+      rw [this, hd]; rfl
+    have hai : h.archs[i]? = some a := by
+      have : (h.archs.drop i)[0]? = some a := by rw [hd]; rfl
+      rw [List.getElem?_drop] at this
+      simpa using this
+    simp only [updateManyLoop] at hp
+    split at hp
+    · exact ih h h' ps (i + 1) g al c hd' hps hp
+    · have hsub : ∀ p ∈ (extractPoints ps now a.maxRetention).2, p.t < 2147483648 ∧ L ≤ p.t := by
+        intro p hp'
+        apply hps p
+        unfold extractPoints at hp'
+        dsimp only at hp'
+        split at hp'
+        · simp at hp'
+        · simp only [List.mem_reverse] at hp'
+          have := List.mem_of_mem_drop hp'
+          simpa using this
+      have hsub1 : ∀ p ∈ (extractPoints ps now a.maxRetention).1, p.t < 2147483648 ∧ L ≤ p.t := by
+        intro p hp'
+        apply hps p
+        unfold extractPoints at hp'
+        dsimp only at hp'
+        split at hp'
+        · exact hp'
+        · simp only [List.mem_reverse] at hp'
+          have := (List.takeWhile_sublist _).subset hp'
+          simpa using this
+      split at hp
+      · exact ih h h' _ (i + 1) g al c hd' hsub hp
+      · cases h1 : archiveUpdateMany o h (extractPoints ps now a.maxRetention).1 i with
+        | error e => rw [h1] at hp; simp at hp
+        | ok hm =>
+          rw [h1] at hp; simp only at hp
+          obtain ⟨alm, gm, hh⟩ := archiveUpdateMany_allstate o h hm g al L c i a hai _ hsub1 h1
+          have hdm : hm.archs.drop (i + 1) = as := by unfold Handle.archs at hd' ⊢; rw [hh]; exact hd'
+          obtain ⟨al', g', hh'⟩ := ih hm h' _ (i + 1) gm alm (c.of_hdr hh) hdm hsub hp
+          exact ⟨al', g', hh'.trans hh⟩
+
+/-- **a batch update keeps the invariant** -/
+theorem updateMany_allstate (o : FOps) (h h' : Handle) (g : Good h) (al : AllState h) (L : Nat) (c : Coarse h L)
+    (ps : List Point) (k : Int) (now : Nat) (hps : ∀ p ∈ ps, p.t < 2147483648 ∧ L ≤ p.t)
+    (hp : h.updateMany o ps k now = .ok h') : AllState h' ∧ Good h' ∧ h'.hdr = h.hdr :=
+  updateManyLoop_allstate o k now L h.archs h h' _ 0 g al c (by simp)
+    (fun p hp' => hps p ((sortByTime_perm ps).mem_iff.1 hp')) hp
+
+/-- a single update keeps the invariant -/
+theorem updatePoint_allstate (o : FOps) (h h' : Handle) (g : Good h) (al : AllState h) (L : Nat) (c : Coarse h L)
+    (k : Int) (t : Nat) (v : Val) (now : Nat) (ht : t < 2147483648 ∧ L ≤ t)
+    (hp : h.updatePoint o k t v now = .ok h') : AllState h' ∧ Good h' ∧ h'.hdr = h.hdr := by
+  unfold updatePoint at hp
+  by_cases hc : t ≤ tsAdd now (- h.hdr.maxRet) ∨ now < t
+  · simp [hc] at hp
+  simp only [hc, if_false] at hp
+  generalize (if k = -1 then ((h.findBestArchive t now : Nat) : Int) else k) = id at hp
+  by_cases hneg : id < 0
+  · simp [hneg] at hp
+  simp only [hneg, if_false] at hp
+  cases ha : h.archs[id.toNat]? with
+  | none => simp [ha] at hp
+  | some a =>
+    simp only [ha] at hp
+    cases hg : h.getPointOffset (a.intervalForWrite t) a with
+    | error e => simp [hg] at hp
+    | ok off =>
+      simp only [hg] at hp
+      cases hput : h.putPointAt ⟨a.intervalForWrite t, v⟩ off with
+      | error e => simp [hput] at hp
+      | ok hm =>
+        simp only [hput] at hp
+        have ca := c a (mem_of_getElem? ha)
+        have lt := ifw_level a L t ca.2.2 ca.1 ca.2.1 ht.1 ht.2
+        obtain ⟨alm, gm, hh⟩ := write_allstate h hm g al id.toNat a ha _ v lt.1 off hg hput
+        obtain ⟨al', g', hh'⟩ := propagateChain_allstate o hm h' gm alm L (c.of_hdr hh) id.toNat _
+          (by intro p hp'; simp at hp'; subst hp'; exact ⟨lt.1.1, lt.2⟩) hp
+        exact ⟨al', g', hh'.trans hh⟩
+
+/-- the coarsest step bounds every step and is a multiple of each -/
+theorem wfFrom_coarse : ∀ (as : List Arch) (off : Nat), WFFrom off as → as ≠ [] →
+    ∃ last, as.getLast? = some last ∧ ∀ a ∈ as, a.step ∣ last.step ∧ a.step ≤ last.step ∧ 0 < a.step := by
+  intro as
+  induction as with
+  | nil => intro _ _ h; exact absurd rfl h
+  | cons x rest ih =>
+    intro off h _
+    cases rest with
+    | nil =>
+      refine ⟨x, rfl, ?_⟩
+      intro a ha
+      simp at ha; subst ha
+      exact ⟨⟨1, by omega⟩, by omega, h.1.1⟩
+    | cons y r =>
+      obtain ⟨okx, _, pair, htail⟩ := h
+      obtain ⟨last, hl, hall⟩ := ih (off + 12 * x.n) htail (by simp)
+      refine ⟨last, by simpa using hl, ?_⟩
+      intro a ha
+      simp only [List.mem_cons] at ha
+      have hy := hall y (by simp)
+      rcases ha with rfl | ha
+      · have hxy : a.step ∣ y.step := Int.dvd_of_emod_eq_zero pair.2.1
+        exact ⟨Int.dvd_trans hxy hy.1, by have := pair.1; omega, okx.1⟩
+      · exact hall a (by simpa using ha)
+
+theorem exists_coarse (h : Handle) (g : Good h) : ∃ L : Nat, Coarse h L ∧ L < 2147483648 := by
+  obtain ⟨last, hl, hall⟩ := wfFrom_coarse _ _ g.wf.2.2 g.wf.1
+  have hlm : last ∈ h.hdr.archives := List.mem_of_getLast? hl
+  have hst := g.hdrOK.steps last hlm
+  refine ⟨last.step.toNat, ?_, by omega⟩
+  intro a ha
+  have := hall a ha
+  have e : ((last.step.toNat : Nat) : Int) = last.step := by omega
+  rw [e]; exact this
+
+/-- every archive of a created file is in the never-written state -/
+theorem created_allstate (o : FOps) (agg : Nat) (xff : UInt32) (lay : List (Int × Nat)) (hl : LayInRange lay)
+    (disk : Bytes) (h : Handle) (hc : createHandle o agg xff lay = .ok (disk, h)) : AllState h :=
+  fun _ a ha => Or.inl (created_fresh o agg xff lay hl disk h hc a (mem_of_getElem? ha))
 
 end Wsp.Inv
